@@ -18,10 +18,18 @@ type seqOp struct {
 var opTimeout = 3 * time.Second
 
 // seqTarget runs operations on one real List (or Array) and reports observations.
+type heldView[V any] struct {
+	seq  col.Sequential[V]
+	snap []int
+	from string
+}
+
 type seqTarget[V any] struct {
+	held  []heldView[V] // results handed out earlier: they must never change afterwards
 	c     Codec[V]
 	list  col.ListLike[V]
 	array col.ArrayLike[V] // set when the target is an Array
+	staleBy string
 	kind  string           // "list" | "array"
 }
 
@@ -99,6 +107,7 @@ func (t *seqTarget[V]) apply(o seqOp) (res any, cr callResult) {
 				s = t.list.GetValues(arg(0), arg(1))
 			}
 			res = J{"l": ints(toIDs(c, s.AsArray()))}
+			t.hold(s, "getValues")
 		case "setValue":
 			if isArr {
 				t.array.SetValue(arg(0), c.from(arg(1)))
@@ -122,7 +131,9 @@ func (t *seqTarget[V]) apply(o seqOp) (res any, cr callResult) {
 		case "removeValue":
 			res = J{"v": c.to(t.list.RemoveValue(arg(0)))}
 		case "removeValues":
-			res = J{"l": ints(toIDs(c, t.list.RemoveValues(arg(0), arg(1)).AsArray()))}
+			removed := t.list.RemoveValues(arg(0), arg(1))
+			res = J{"l": ints(toIDs(c, removed.AsArray()))}
+			t.hold(removed, "removeValues")
 		case "removeAll":
 			t.list.RemoveAll()
 		case "getIndex":
@@ -194,6 +205,32 @@ func (t *seqTarget[V]) apply(o seqOp) (res any, cr callResult) {
 	return res, cr
 }
 
+// hold remembers a result handed out by the collection.  Writing through it must
+// not reach the collection, and later changes of the collection must not reach it.
+func (t *seqTarget[V]) hold(s col.Sequential[V], from string) {
+	before := t.contents()
+	if a, ok := s.(col.ArrayLike[V]); ok && a.GetSize() > 0 {
+		a.SetValue(1, t.c.from(t.c.to(a.GetValue(-1)))) // overwrite the first value with a copy of the last
+		a.ReverseValues()
+	}
+	if !eqInts(before, t.contents()) {
+		t.staleBy = from + ": writing through the result changed the receiver"
+	}
+	if len(t.held) >= 3 {
+		t.held = t.held[1:]
+	}
+	t.held = append(t.held, heldView[V]{s, toIDs(t.c, s.AsArray()), from})
+}
+
+func (t *seqTarget[V]) checkHeld() string {
+	for _, h := range t.held {
+		if !eqInts(toIDs(t.c, h.seq.AsArray()), h.snap) {
+			return h.from + ": an earlier result changed after a later call"
+		}
+	}
+	return ""
+}
+
 // line runs one op and emits the protocol line.
 func (t *seqTarget[V]) line(out *Out, kind string, caseID int, o seqOp, extra J) callResult {
 	pre := t.contents()
@@ -223,6 +260,16 @@ func (t *seqTarget[V]) line(out *Out, kind string, caseID int, o seqOp, extra J)
 	}
 	for k, v := range extra {
 		j[k] = v
+	}
+	if cr.kind != "hang" {
+		if t.staleBy == "" {
+			t.staleBy = t.checkHeld()
+		}
+		if t.staleBy != "" {
+			j["stale"] = t.staleBy
+			t.staleBy = ""
+			t.held = nil
+		}
 	}
 	out.emit(j)
 	return cr
